@@ -85,11 +85,55 @@ def build_object(rng, kind, big=False):
     return h, cfg, trace
 
 
+def many_records_case(ctx, rng, idx, tmp):
+    """More than 100 000 records in one text file (50 001 nodes with metadata + 50 010 weighted hyperedges): nothing about the
+    round trip depends on the number of records.  Compared through the listings (sets / dicts), not the per-node battery."""
+    import hypergraphx as hgx
+    from hypergraphx.readwrite import save_hypergraph, load_hypergraph
+
+    ctx.event("100000-records")
+    n = 50001
+    h = hgx.Hypergraph(weighted=True)
+    h.add_nodes(list(range(n)))
+    edges = [(i, (i * 7 + 1) % n, (i * 13 + 5) % n) for i in range(n)]
+    edges = [tuple(sorted(set(e))) for e in edges]
+    edges = list(dict.fromkeys(e for e in edges if len(e) >= 2)) + [(i, i + 1) for i in range(0, 20, 2)]
+    edges = list(dict.fromkeys(edges))
+    h.add_edges(edges, weights=[1 + (i % 5) * 0.5 for i in range(len(edges))])
+    for v in range(0, n, 5000):
+        h.set_node_metadata(v, {"tag": v})
+    for e in edges[::7000]:
+        h.set_edge_metadata(e, {"mark": list(e)})
+    W = h.get_weights(asdict=True)
+    nodes0, nmd0 = set(h.get_nodes()), {v: h.get_node_metadata(v) for v in range(0, n, 5000)}
+
+    def wit(x=None):
+        return {"nodes": n, "hyperedges": len(edges), "extra": repr(x)[:300]}
+
+    for fmt in ("json", "hgx"):
+        path = os.path.join(tmp, f"big.{fmt}")
+        try:
+            save_hypergraph(h, path, binary=(fmt == "hgx"))
+            g = load_hypergraph(path)
+        except Exception as e:
+            ctx.check("C06:roundtrip", False, f"C06:H:{fmt}:many-records:raised:{type(e).__name__}", lambda: wit(repr(e)))
+            continue
+        W2 = g.get_weights(asdict=True)
+        ok = type(g) is type(h) and g.is_weighted() and set(g.get_nodes()) == nodes0 and W2 == W
+        ctx.check("C06:roundtrip", ok, f"C06:H:{fmt}:many-records:loaded-differs", lambda: wit((len(W2), len(W), sorted(set(W) - set(W2))[:3], sorted(set(W2) - set(W))[:3])))
+        okm = all(g.get_node_metadata(v) == nmd0[v] for v in nmd0) and all(strip_reserved(g.get_edge_metadata(e)) == {"mark": list(e)} for e in edges[::7000])
+        ctx.check("C06:roundtrip", okm, f"C06:H:{fmt}:many-records:metadata-differs", wit)
+        ctx.check("C06:save-does-not-mutate", h.get_weights(asdict=True) == W and set(h.get_nodes()) == nodes0, f"C06:H:{fmt}:many-records:save-mutated-object", wit)
+    ctx.distinct_add(("many-records", n))
+
+
 def run_case(ctx, rng, idx):
     mode = idx % 4
     tmp = tempfile.mkdtemp(prefix="hgx_c06_")
     try:
-        if mode in (0, 1):
+        if idx == 8 or (ctx.tier == "thorough" and idx % 8000 == 8):
+            many_records_case(ctx, rng, idx, tmp)
+        elif mode in (0, 1):
             roundtrip_case(ctx, rng, idx, tmp)
         elif mode == 2:
             hgr_case(ctx, rng, idx, tmp)
